@@ -13,6 +13,7 @@ import (
 	"encoding/json"
 	"flag"
 	"fmt"
+	"io"
 	"net"
 	"net/http"
 	"net/url"
@@ -136,6 +137,8 @@ type rig struct {
 	originCAFile  string
 	origins       map[string]*origin // kind -> origin on 127.0.0.1
 	origin6       *origin            // valid origin on [::1]
+	upsAddr       string             // an HTTPS upstream proxy named ups.test (certificate for that name)
+	upsConnects   atomic.Int64
 }
 
 type proxyOpt struct {
@@ -146,6 +149,7 @@ type proxyOpt struct {
 	CacheTTL  time.Duration
 	Validity  time.Duration
 	CAB       bool // the Transport is configured with CA B only (not with the origin CA the others use)
+	ViaUps    bool // CONNECTs to skip.test are tunnelled through the HTTPS upstream proxy ups.test; everything else is direct
 }
 
 type proxy struct {
@@ -188,6 +192,8 @@ func newRig(dir string) (*rig, error) {
 		"wrongname": r.originCA.mint([]string{"other.test"}, []net.IP{net.ParseIP("10.9.9.9")}, now.Add(-time.Hour), now.Add(time.Hour)),
 		"untrusted": r.rogueCA.mint(good, lo, now.Add(-time.Hour), now.Add(time.Hour)),
 		"validB":    r.originCA2.mint(good, lo, now.Add(-time.Hour), now.Add(time.Hour)),
+		// trusted CA, valid dates, but issued for the NAME OF THE UPSTREAM PROXY, not for any name the origin is asked by
+		"upsname": r.originCA.mint([]string{"ups.test"}, nil, now.Add(-time.Hour), now.Add(time.Hour)),
 	}
 	for k, c := range certs {
 		o, err := newOrigin(k, "127.0.0.1:0", c)
@@ -199,7 +205,49 @@ func newRig(dir string) (*rig, error) {
 	if o, err := newOrigin("valid", "[::1]:0", certs["valid"]); err == nil {
 		r.origin6 = o
 	}
+	if err := r.startUpstreamHTTPS(r.originCA.mint([]string{"ups.test"}, nil, now.Add(-time.Hour), now.Add(time.Hour))); err != nil {
+		return nil, err
+	}
 	return r, nil
+}
+
+// startUpstreamHTTPS runs an HTTPS proxy (TLS to the proxy, then CONNECT) that tunnels to the loopback origins.
+func (r *rig) startUpstreamHTTPS(cert *tls.Certificate) error {
+	ln, err := tls.Listen("tcp", "127.0.0.1:0", &tls.Config{Certificates: []tls.Certificate{*cert}})
+	if err != nil {
+		return err
+	}
+	_, port, _ := net.SplitHostPort(ln.Addr().String())
+	r.upsAddr = "ups.test:" + port
+	go func() {
+		for {
+			c, err := ln.Accept()
+			if err != nil {
+				return
+			}
+			go func() {
+				defer c.Close()
+				c.SetDeadline(time.Now().Add(15 * time.Second))
+				br := bufio.NewReader(c)
+				req, err := http.ReadRequest(br)
+				if err != nil || req.Method != http.MethodConnect {
+					return
+				}
+				_, target := redirect("tcp", req.Host)
+				up, err := net.DialTimeout("tcp", target, 3*time.Second)
+				if err != nil {
+					fmt.Fprint(c, "HTTP/1.1 502 Bad Gateway\r\nContent-Length: 0\r\n\r\n")
+					return
+				}
+				defer up.Close()
+				r.upsConnects.Add(1)
+				fmt.Fprint(c, "HTTP/1.1 200 OK\r\n\r\n")
+				go io.Copy(up, br)
+				io.Copy(c, up)
+			}()
+		}
+	}()
+	return nil
 }
 
 func (r *rig) newProxy(opt proxyOpt) (*proxy, error) {
@@ -220,6 +268,15 @@ func (r *rig) newProxy(opt proxyOpt) (*proxy, error) {
 		mc.CacheTTL = opt.CacheTTL
 	}
 	cfg.MITM = mc
+	if opt.ViaUps {
+		ups := &url.URL{Scheme: "https", Host: r.upsAddr}
+		cfg.UpstreamProxyFunc = func(req *http.Request) (*url.URL, error) {
+			if strings.EqualFold(req.URL.Hostname(), "skip.test") {
+				return ups, nil
+			}
+			return nil, nil
+		}
+	}
 	p := &proxy{opt: opt, done: make(chan struct{})}
 	if opt.Domains != nil {
 		var items []ruleset.RegexpListItem
@@ -554,6 +611,9 @@ func (r *rig) runRequestCase(p *proxy, c rcaseJSON) (string, map[string]any) {
 	plain, secure, cookie := o.hits(path)
 	// does the origin's certificate verify under the roots THIS proxy was configured with?
 	originOK := (c.Origin == "valid" && c.Proxy != "onlyB") || (c.Origin == "validB" && c.Proxy == "onlyB")
+	if c.Proxy == "viaups" {
+		originOK = c.Origin == "valid"
+	}
 	obs := map[string]any{"plain": plain, "tls": secure, "status": status, "note": note, "plaintext_cookie": cookie, "authority": authority}
 	return fmt.Sprintf("{| r_scheme := %s; r_xfp := %s; r_tls_session := %s; r_insecure := %s; r_origin_ok := %s; r_plain := %s; r_tls := %s; r_status := %s |}",
 		coqfmt.Str(c.Scheme), coqfmt.Str(c.XFP), coqfmt.Bool(c.TLS), coqfmt.Bool(c.Insecure), coqfmt.Bool(originOK),
@@ -691,6 +751,16 @@ func main() {
 		}
 	}
 
+	if *replay == "" {
+		// after a tunnelled CONNECT through the HTTPS upstream proxy (done before the request cases run): origins are
+		// still verified against THEIR name -- a certificate issued for the upstream proxy's name must not do
+		for _, x := range []struct{ origin, host string }{{"upsname", "127.0.0.1"}, {"upsname", "origin.test"}, {"wrongname", "127.0.0.1"}, {"valid", "127.0.0.1"}, {"valid", "origin.test"}} {
+			for _, form := range []struct{ scheme, xfp string }{{"", ""}, {"https", ""}} {
+				rcs = append(rcs, rcaseJSON{Kind: "request", Origin: x.origin, Host: x.host, Scheme: form.scheme, XFP: form.xfp, TLS: true, Proxy: "viaups"})
+			}
+		}
+	}
+
 	// pure cases
 	var sc []string
 	var sj []any
@@ -748,6 +818,12 @@ func main() {
 			panic(err)
 		}
 		proxies["onlyB"] = pb
+		// a proxy that tunnels the excluded host through an HTTPS upstream proxy and intercepts the rest
+		pu, err := r.newProxy(proxyOpt{Name: "viaups", ViaUps: true, Domains: []string{`^.*\.test$`, `-^skip\.test$`, `^127\.0\.0\.1$`}})
+		if err != nil {
+			panic(err)
+		}
+		proxies["viaups"] = pu
 		defer func() {
 			for _, p := range proxies {
 				p.close()
@@ -884,6 +960,18 @@ func main() {
 	m.Counts["handshake"] = len(hc)
 	m.Shards = append(m.Shards, writeShards(*out, "hcases", "hcase", "hcase_model_ok", "hcase_prop_ok", hc)...)
 	writeJSONL(*out, "hcases.jsonl", hj)
+
+	// the sequence that matters for a configuration shared with the upstream dialer: FIRST a CONNECT that is not
+	// intercepted and goes through the HTTPS upstream proxy, THEN the intercepted requests
+	if pu := proxies["viaups"]; pu != nil {
+		for i := 0; i < 2; i++ {
+			h := r.runHandshakeCase(pu, hcaseJSON{"handshake", "viaups", "skip.test:$PV", "", i})
+			if !strings.Contains(h, "h_origin_cert := true") {
+				m.Notes = append(m.Notes, "viaups: the tunnelled CONNECT through the HTTPS upstream proxy did not reach the origin: "+h[:min(len(h), 300)])
+			}
+		}
+		m.Dist["upstream_https_connects"] = int(r.upsConnects.Load())
+	}
 
 	// inner requests
 	var rc []string
